@@ -76,28 +76,40 @@ def exhaustive_regexes(maxsize):
 # random larger regexes
 # ---------------------------------------------------------------------------------------------------------------
 R_ATOMS = ['a', 'b', 'c', 'A', '0', r'\d', r'\w', r'\s', r'\S', r'\D', r'\W', '.', '[ab]', '[^a]', '[^bc]', '[a-c]', r'[^\d]', r'\.', r'\ ',
-           r'[a\-]', r'\n', r'\t', r'\\', r'\/', '[^ab]', r'[\w\-]', '[0-9a-f]', r'[^\s]', r'\+', r'\(', '_', ':', r'[^\w]', r'\r', '[A-Za-z]']
+           r'[a\-]', r'\n', r'\t', r'\\', r'\/', '[^ab]', r'[\w\-]', '[0-9a-f]', r'[^\s]', r'\+', r'\(', '_', ':', r'[^\w]', r'\r', '[A-Za-z]',
+           r'[\]-a]', r'[+-\-]', r'[^\--\/]', r'[\\-\]_]']
 R_REPS = ['*', '+', '?', '{2}', '{1,2}', '{0,2}', '{2,}', '{0}', '{1}', '{0,1}', '{3}', '{1,3}']
+# C07's own generator also draws bounded repeats with equal bounds (the clause / wait pattern generators of C08, C09, C16 keep R_REPS: their
+# random streams, and with them the programs those checks enumerate, stay as they were)
+R_REPS_C07 = R_REPS + ['{2,2}', '{1,1}', '{0,0}']
 # two (or more) inverted classes leaving one state (nmfu.py `TODO: handle multiple of these`)
 R_TWO_INV = ['([^a]|[^b])x', '[^ab]*[^bc]', '(.|[^a])b', '[^a]?[^b]', r'(\W|[^a])+', r'(\D|\S)x', r'([^a]|\W)([^b]|\D)', '(.|a)*b', r'[^a]*\S',
              r'(\Da|\Sb)', '([^ab]|[^cd])+e', r'[^\d]*[^\w]', '(a|[^a])(b|[^b])', r'(\S|\s)x', '.*[^a]', r'([^a]b|[^b]a)+', r'\W?\D?\S', '[^a]{1,2}[^b]']
 B_ATOMS = ['61', '62', '00', 'ff', '80', '7f', '[10-15]', '[^61]', '[^00 ff]', '.', '[61-63 80-ff]', '[^80-ff]', '0a', '[00-7f]', '[^61 62]']
+# set ranges whose lower / upper endpoint is written as an escape (`\-` `\]` `\\` `\/` are the characters that must be escaped inside a set):
+# the range runs between the *unescaped* characters.  Plain, inverted, mixed with other members, and inside larger expressions.
+R_ESC_RANGE = [r'x[\]-a]y', r'x[+-\-]y', r'[\--0]+', r'[!-\/]a', r'[\\-a]b', r'[Z-\\]+c', r'[\/-9]*:', r'[\]-\]]x', r'[\--\/]+', r'[^\]-a]b', r'[^+-\-]*-',
+               r'[a\]-c0-9]+', r'[\/-1\\-\]]x', r'([\]-a]|[+-\-])+;', r'[^!-\/\]-a]{1,2}', r'[\--\-]a|[\\-\\]b', r'[\w\]-\]]+x', r'[*-\-\d]+x']
+# bounded repeats whose two bounds are equal: x{n,n} is x{n}
+R_EQ_REP = ['a{2,2}b', '(x|yz){1,1}!', 'a{0,0}b', '[ab]{3,3}', '(a{2,2})*b', 'a{1,1}', '(ab?){2,2}c', r'\d{2,2}:\d{2,2}', '(a|b{1,1}){2,2}', '[^a]{2,2}a', '.{1,1}x', 'a{0,0}',
+            '(a{1,1}|b)+c', 'x((ab){2,2})?y']
+B_EQ_REP = ['41{3,3} 00', '(61|62 63){1,1} 21', '[^61]{2,2} 61', 'ff{0,0} 00', '[80-ff]{2,2}', '(61{1,1} 62){2,2}']
 B_TWO_INV = ['([^61]|[^62]) 00', '[^61 62]* [^62 63]', '(.|[^00]) ff', '[^00]? [^ff]', '([^80-ff]|[^00-7f])+ 61', '.* [^ff]',
              '([^80-ff] 61|[^00-7f] 62)+', '([^40-ff] 61|[^00-3f 80-ff] 62|[^00-7f] 63)+ 00', '([^01-ff]|[^00]) [^80-ff]']
 
 
-def _rgen(r, depth, atoms, binary):
+def _rgen(r, depth, atoms, binary, reps=R_REPS):
     sep = ' ' if binary else ''
     if depth == 0 or r.random() < 0.3:
         return r.choice(atoms)
     k = r.random()
     if k < 0.35:
-        return _rgen(r, depth - 1, atoms, binary) + sep + _rgen(r, depth - 1, atoms, binary)
+        return _rgen(r, depth - 1, atoms, binary, reps) + sep + _rgen(r, depth - 1, atoms, binary, reps)
     if k < 0.55:
-        return '(' + _rgen(r, depth - 1, atoms, binary) + '|' + _rgen(r, depth - 1, atoms, binary) + ')'
+        return '(' + _rgen(r, depth - 1, atoms, binary, reps) + '|' + _rgen(r, depth - 1, atoms, binary, reps) + ')'
     if k < 0.88:
-        return '(' + _rgen(r, depth - 1, atoms, binary) + ')' + r.choice(R_REPS)
-    return '(' + _rgen(r, depth - 1, atoms, binary) + ')'
+        return '(' + _rgen(r, depth - 1, atoms, binary, reps) + ')' + r.choice(reps)
+    return '(' + _rgen(r, depth - 1, atoms, binary, reps) + ')'
 
 
 def random_regexes(n, salt=7):
@@ -106,6 +118,8 @@ def random_regexes(n, salt=7):
     out = []
     seen = set()
     fixed = [('/' + x + '/', 'text', 'two-inverted') for x in R_TWO_INV] + [('b/' + x + '/', 'binary', 'two-inverted') for x in B_TWO_INV]
+    fixed += [('/' + x + '/', 'text', 'escaped-range') for x in R_ESC_RANGE]
+    fixed += [('/' + x + '/', 'text', 'equal-bounds-repeat') for x in R_EQ_REP] + [('b/' + x + '/', 'binary', 'equal-bounds-repeat') for x in B_EQ_REP]
     for f in fixed:
         if len(out) < n:
             out.append(f)
@@ -114,7 +128,7 @@ def random_regexes(n, salt=7):
     while len(out) < n and tries < n * 20:
         tries += 1
         binary = r.random() < 0.25
-        body = _rgen(r, r.choice([2, 3, 3, 4]), B_ATOMS if binary else R_ATOMS, binary)
+        body = _rgen(r, r.choice([2, 3, 3, 4]), B_ATOMS if binary else R_ATOMS, binary, R_REPS_C07)
         if r.random() < 0.2:
             body = r.choice(B_TWO_INV if binary else R_TWO_INV) + (' ' if binary else '') + body
         src = ('b/' if binary else '/') + body + '/'
@@ -234,6 +248,11 @@ FIXED_CLAUSE_SETS = [
     # three clauses finishing on the same string, the two highest tie: must be rejected (C09), never resolved silently
     'finishcode A, B, C;\nparser { greedy case { /[a-z]+/ -> { "!"; finish A; } prio 1 { "if" -> { "!"; finish B; } /i[fs]/ -> { "!"; finish C; } } } }',
     'finishcode A, B, C;\nparser { greedy case { /[0-9]+/ -> { "!"; finish A; } prio 2 "77" -> { "!"; finish B; } prio 2 /7[67]/ -> { "!"; finish C; } } }',
+    # an open-ended clause pattern that ends in an inverted class: the excluded byte ends the clause, it is not swallowed by the class
+    'finishcode A, B;\nparser { case { /[^ ]+/ -> { finish A; } " " -> { finish B; } } }',
+    'finishcode A, B, E;\nparser { greedy case { /[^ab]+/ -> { finish A; } "a" -> { finish B; } else -> { finish E; } } }',
+    'finishcode A, B;\nparser { case { /x[^y]*/ -> { finish A; } "y" -> { "!"; finish B; } } }',
+    'finishcode A, B;\nparser { case { b/[^00 ff]+/ -> { finish A; } "00"b -> { finish B; } } }',
 ]
 
 
@@ -261,8 +280,14 @@ A_CLOSED = ['"ab"', '"a"', '/a[bc]/', '"x"i']
 B_FIRST = ['"a"', '"b"', '"c"', '/[bc]x/', '"!"', r'/\d/', '/[^a]/', '"ab"i', '"y"', '/b+/', '"ba"', r'/\w/', '"\\xff"', '/./', '"c"i', '/[a-c]/']
 
 
+# first statements of the branches of an if / elif / else that follows a look-ahead-terminated statement: mostly negated classes and
+# wildcards, i.e. a byte may be accepted by one branch only through its "everything else" transition while another branch excludes it by name
+B_BRANCH = ['/[^a]/', '/[^b]/', '/[^c]/', '/[^d]/', '/[^x]/', '/[^y]/', '/[^ab]/', '/[^bc]/', '/[^cd]/', '/[^xy]/', '/./', r'/\W/', r'/\D/', '/[^a]z/', '/[^b]+k/', '/[^0-9]/',
+            '"a"', '"b"', '"c"', '"x"', '"q"', '/[ab]/', '/[cd]/', r'/\d/', '/[^,]/', r'/[^\.]/']
+
+
 def _pair(r):
-    """-> dict(src, shape, queries=[{'A': stmt text, 'B': stmt text}])"""
+    """-> dict(src, shape, queries=[{'A': stmt text, 'B': stmt text, optional 'pre': statements before A, optional 'Adesc': how A is written in src}])"""
     shape = r.choice(['regex', 'regex', 'optional', 'optional2', 'loop', 'try', 'foreach', 'if', 'clause-end', 'clause-body', 'loop-repeat', 'loop-else', 'nested-optional'])
     A = r.choice(A_OPEN) if r.random() < 0.85 else r.choice(A_CLOSED)
     B = r.choice(B_FIRST)
@@ -311,6 +336,44 @@ def _pair(r):
     return {'src': '%sparser { %s }\n' % (decl, body), 'shape': shape, 'queries': q}
 
 
+def _pair_join(r):
+    """second family (own random stream, appended to the first by pairs()): the statement after A is reached through a condition point
+    (if / elif / else directly after a look-ahead-terminated statement), and A is a `wait` on an open-ended regex"""
+    shape = r.choice(['if-else-after', 'if-else-after', 'if-after', 'wait', 'wait'])
+    B = r.choice(B_FIRST)
+    if shape in ('if-else-after', 'if-after'):
+        # A; if .. { B1; } [elif .. { B2; }] [else { B3; }] T;   - the join after A sees a condition point, not a plain state
+        decl = 'out int x = 0;\n'
+        A = r.choice(A_OPEN)
+        nb = r.choice([2, 2, 2, 3]) if shape == 'if-else-after' else r.choice([1, 1, 2])
+        bs = [r.choice(B_BRANCH) for _ in range(nb)]
+        conds = ['x > 0', 'x < 0', 'x == 0']
+        if shape == 'if-else-after':
+            parts = ['if %s { %s; }' % (conds[0], bs[0])] + ['elif %s { %s; }' % (conds[i], bs[i]) for i in range(1, nb - 1)] + ['else { %s; }' % bs[-1]]
+        else:
+            parts = ['if %s { %s; }' % (conds[0], bs[0])] + ['elif %s { %s; }' % (conds[i], bs[i]) for i in range(1, nb)]
+        ifs = ' '.join(parts)
+        T = r.choice(['"q"', '"!"', B])
+        akind = r.choice(['plain', 'plain', 'optional', 'try'])
+        if akind == 'optional':
+            pre, Astmt = '"s";', 'optional { %s; }' % A
+        elif akind == 'try':
+            pre, Astmt = '', 'try { %s; } catch { }' % A
+        else:
+            pre, Astmt = '', A + ';'
+        body = '%s %s %s %s;' % (pre, Astmt, ifs, T)
+        # without an else the if may match nothing, so the statement after it can start at the look-ahead byte as well
+        q = [{'A': Astmt, 'B': ifs if shape == 'if-else-after' else '%s %s;' % (ifs, T), 'pre': pre}]
+        return {'src': '%sparser { %s }\n' % (decl, body.strip()), 'shape': shape, 'queries': q}
+    # wait P; B;  - P open-ended: once P has matched, a byte that continues the match must not also start B.  The query is on P itself:
+    # a witness w in L(P) read from the wait's start is a history of the wait, whatever was skipped before it
+    A = r.choice(A_OPEN)
+    pre = r.choice(['', '', '"s";'])
+    body = '%s wait %s; %s;' % (pre, A, B)
+    q = [{'A': A + ';', 'Adesc': 'wait %s;' % A, 'B': B + ';', 'pre': pre}]
+    return {'src': 'parser { %s }\n' % body.strip(), 'shape': shape, 'queries': q}
+
+
 FIXED_PAIRS = [
     {'src': 'parser { /a+/; "a"; }\n', 'shape': 'regex', 'queries': [{'A': '/a+/;', 'B': '"a";'}]},
     {'src': 'parser { /a+/; "b"; }\n', 'shape': 'regex', 'queries': [{'A': '/a+/;', 'B': '"b";'}]},
@@ -325,18 +388,48 @@ FIXED_PAIRS = [
     {'src': 'parser { case { /ab*/ -> { "c"; } "m" -> { } } }\n', 'shape': 'clause-body', 'queries': [{'A': '/ab*/;', 'B': '"c";'}]},
 ]
 
+FIXED_PAIRS_JOIN = [
+    # if / else directly after a look-ahead-terminated statement; the continuing byte is excluded by name in one branch and taken
+    # through the negated class (or the wildcard) of another
+    {'src': 'out int x = 0;\nparser { /c+/; if x > 0 { /[^c]/; } else { /[^d]/; } "q"; }\n', 'shape': 'if-else-after',
+     'queries': [{'A': '/c+/;', 'B': 'if x > 0 { /[^c]/; } else { /[^d]/; }'}]},
+    {'src': 'out int x = 0;\nparser { /c+/; if x > 0 { /[^c]/; } else { /[^cd]/; } "q"; }\n', 'shape': 'if-else-after',
+     'queries': [{'A': '/c+/;', 'B': 'if x > 0 { /[^c]/; } else { /[^cd]/; }'}]},
+    {'src': 'out int x = 0;\nparser { /ab*/; if x > 0 { /[^b]/; } else { /./; } "!"; }\n', 'shape': 'if-else-after',
+     'queries': [{'A': '/ab*/;', 'B': 'if x > 0 { /[^b]/; } else { /./; }'}]},
+    {'src': 'out int x = 0;\nparser { /a+/; if x > 0 { /[^x]/; } elif x < 0 { /[^a]/; } else { "x"; } }\n', 'shape': 'if-else-after',
+     'queries': [{'A': '/a+/;', 'B': 'if x > 0 { /[^x]/; } elif x < 0 { /[^a]/; } else { "x"; }'}]},
+    {'src': 'out int x = 0;\nparser { "s"; optional { /x(yx)*/; } if x > 0 { /[^y]k/; } else { /\\W/; } "q"; }\n', 'shape': 'if-else-after',
+     'queries': [{'A': 'optional { /x(yx)*/; }', 'B': 'if x > 0 { /[^y]k/; } else { /\\W/; }', 'pre': '"s";'}]},
+    {'src': 'out int x = 0;\nparser { /\\d+/; if x > 0 { /[^0-9]/; } else { /[^a]/; } }\n', 'shape': 'if-else-after',
+     'queries': [{'A': '/\\d+/;', 'B': 'if x > 0 { /[^0-9]/; } else { /[^a]/; }'}]},
+    {'src': 'out int x = 0;\nparser { /c+/; if x > 0 { /[^c]/; } /[^d]/; }\n', 'shape': 'if-after',
+     'queries': [{'A': '/c+/;', 'B': 'if x > 0 { /[^c]/; } /[^d]/;'}]},
+    # wait on an open-ended regex: the accepting state continues by going back to the pattern's start state / elsewhere
+    {'src': 'parser { wait /a(ba)*/; "b!"; }\n', 'shape': 'wait', 'queries': [{'A': '/a(ba)*/;', 'Adesc': 'wait /a(ba)*/;', 'B': '"b!";'}]},
+    {'src': 'parser { wait /a(ba)*/; "c!"; }\n', 'shape': 'wait', 'queries': [{'A': '/a(ba)*/;', 'Adesc': 'wait /a(ba)*/;', 'B': '"c!";'}]},
+    {'src': 'parser { wait /x(,x)*/; /[,;]/; }\n', 'shape': 'wait', 'queries': [{'A': '/x(,x)*/;', 'Adesc': 'wait /x(,x)*/;', 'B': '/[,;]/;'}]},
+    {'src': 'parser { "s"; wait /(ab)+/; "a"; }\n', 'shape': 'wait', 'queries': [{'A': '/(ab)+/;', 'Adesc': 'wait /(ab)+/;', 'B': '"a";', 'pre': '"s";'}]},
+    {'src': 'parser { wait /ab+/; /[^a]/; }\n', 'shape': 'wait', 'queries': [{'A': '/ab+/;', 'Adesc': 'wait /ab+/;', 'B': '/[^a]/;'}]},
+    {'src': 'parser { wait /a(b|ca)*/; "c"; }\n', 'shape': 'wait', 'queries': [{'A': '/a(b|ca)*/;', 'Adesc': 'wait /a(b|ca)*/;', 'B': '"c";'}]},
+]
 
-def pairs(n, salt=13):
-    r = rng(salt)
-    out = [dict(x) for x in FIXED_PAIRS][:n]
-    seen = {x['src'] for x in out}
-    tries = 0
-    while len(out) < n and tries < n * 20:
-        tries += 1
-        p = _pair(r)
-        if p['src'] not in seen:
-            seen.add(p['src'])
-            out.append(p)
+
+def pairs(n, salt=13, njoin=None):
+    """n programs of the first family (FIXED_PAIRS + _pair) followed by njoin (default n // 4) of the second (FIXED_PAIRS_JOIN + _pair_join)"""
+    out = []
+    for fixed, gen, cnt, slt in ((FIXED_PAIRS, _pair, n, salt), (FIXED_PAIRS_JOIN, _pair_join, n // 4 if njoin is None else njoin, salt + 1000)):
+        r = rng(slt)
+        part = [dict(x) for x in fixed][:cnt]
+        seen = {x['src'] for x in part}
+        tries = 0
+        while len(part) < cnt and tries < cnt * 20:
+            tries += 1
+            p = gen(r)
+            if p['src'] not in seen:
+                seen.add(p['src'])
+                part.append(p)
+        out += part
     return out
 
 
